@@ -350,7 +350,8 @@ fn one(st: &mut Stats, seed: u64) {
     let mut far_plan = SidePlan::quiet();
     far_plan.writes = (0..rng.range(0, 12)).map(|_| match rng.below(6) {
         0 => WOp::Sleep(rng.range(1, 4)),
-        _ => WOp::Write(*rng.pick(&[1usize, 7, 300, 5000])),
+        // (a zero-length write is legal and travels as an empty Push frame: nothing for the local side, but nothing may stop either)
+        _ => WOp::Write(*rng.pick(&[1usize, 7, 300, 5000, 1, 7, 300, 5000, 0])),
     }).collect();
     far_plan.style = if rng.chance(1, 2) { RStyle::Read(4096) } else { RStyle::FillBuf(0) };
     match case.far {
@@ -629,11 +630,24 @@ pub fn run(p: &Params) -> (Stats, &'static str) {
     let mut st = Stats::new();
     let base = p.shard_seed("C13");
     let n = p.share(if p.tier_thorough { 6_400_000 } else { 16_000 });
+    // `--only credit` (job of C03: "one write consumes exactly one unit of credit" also holds for the frames the bridge sends):
+    // the same executions, only the credit rules give verdicts
+    let only_credit = p.get("only") == Some("credit");
+    const CREDIT_SIGS: [&str; 8] = ["push-without-credit", "window-exceeded-on-wire", "window-overrun", "credit-overdraw", "ack-unconsumed", "credit-unit-without-frame", "write-credit-mismatch", "reset-of-live-flow"];
     for i in 0..n {
         one(&mut st, mix(base, i));
+        if only_credit {
+            st.violations.retain(|v| CREDIT_SIGS.iter().any(|c| v.signature.starts_with(c)));
+        }
         if st.too_many_violations() {
             break;
         }
+    }
+    if only_credit {
+        st.targeted.retain(|k, _| k == "bytes_bridged_runs" || k.starts_with("runs_with_"));
+        let n = st.targeted.get("bytes_bridged_runs").copied().unwrap_or(0);
+        st.targeted.remove("bytes_bridged_runs");
+        st.target("bridge_runs_with_credit_accounting", n);
     }
     (st, RULE)
 }
